@@ -211,6 +211,12 @@ def diagRange (m : Mode) (c : Bytes) (o : Origin) : Option Range :=
       some ⟨⟨toU32 (o.line - 1), toU32 (o.col - 1)⟩, ⟨toU32 (o.line - 1), toU32 (o.col - 1 + rng.length)⟩⟩
   else none
 
+/-- The origin lies inside the content and its line/column are those of its offset (what every
+`status.SourceRange` taken from a parse-tree node satisfies; evaluated by the driver on every real origin). -/
+def Origin.inDoc (c : Bytes) (o : Origin) : Bool :=
+  decide (0 ≤ o.off ∧ o.off ≤ o.stop ∧ o.stop ≤ c.length ∧
+    o.line = (lineCol c o.off.toNat).1 + 1 ∧ o.col = (lineCol c o.off.toNat).2 + 1)
+
 /-- What `compiler.Compile` returned for a content. -/
 inductive Problem
   /-- an entry of a `status.Status` -/
@@ -249,6 +255,11 @@ structure Ident where
 deriving DecidableEq, Repr, Inhabited
 
 def Ident.text (c : Bytes) (i : Ident) : Bytes := slice c i.off i.stop
+
+/-- The identifier lies inside the content on one line, line/column are those of its offset. -/
+def Ident.inDoc (c : Bytes) (i : Ident) : Bool :=
+  decide (i.off ≤ i.stop ∧ i.stop ≤ c.length ∧ (∀ x ∈ i.text c, x ≠ 10) ∧
+    i.line = (lineCol c i.off).1 + 1 ∧ i.col = (lineCol c i.off).2 + 1)
 
 /-- `id.Location` -/
 def location (m : Mode) (c : Bytes) (i : Ident) : Range :=
